@@ -1,6 +1,8 @@
 package harness
 
 import (
+	"context"
+	"bytes"
 	"io"
 	"bufio"
 	"fmt"
@@ -20,6 +22,8 @@ type c10Req struct {
 	ConnHdr  string `json:"connection"` // "" = absent
 	Handler  string `json:"handler"`    // "", setclose, header-close, header-keepalive
 	WantStop bool   `json:"-"`
+	Body     string `json:"body,omitempty"`         // "" | small | big | chunked : a POST whose body the handler leaves alone unless Handler is readbody
+	SlowMs   int    `json:"client_reads_after_ms,omitempty"` // the client starts reading the (large) response late, through a small receive window
 }
 
 type c10Conn struct {
@@ -36,6 +40,8 @@ type c10Plan struct {
 	// client mode
 	RespConn []string `json:"response_connection_values"`
 	RespName []string `json:"response_connection_names"`
+	StreamReq     bool `json:"stream_request_body,omitempty"`
+	ShutdownCtxMs int  `json:"shutdown_context_ms,omitempty"` // >0: ShutdownWithContext with this timeout (it may give up)
 	NoNorm   bool     `json:"disable_header_names_normalizing"`
 	Calls    int      `json:"calls"`
 	Stream   bool     `json:"stream_response_body,omitempty"`
@@ -69,7 +75,9 @@ func scenC10(e *Env) func() {
 	p.ShutdownAfterMs = -1
 	if e.Chance(30) {
 		p.ShutdownAfterMs = Pick(e, 0, 50, 150, 400)
+		p.ShutdownCtxMs = Pick(e, 0, 0, 30, 300)
 	}
+	p.StreamReq = e.Chance(30)
 	nconn := e.Range(1, 3)
 	for ci := 0; ci < nconn; ci++ {
 		var c c10Conn
@@ -78,8 +86,12 @@ func scenC10(e *Env) func() {
 			c.Reqs = append(c.Reqs, c10Req{
 				Proto:   Pick(e, "HTTP/1.1", "HTTP/1.1", "HTTP/1.1", "HTTP/1.0"),
 				ConnHdr: c10ConnValues[e.Int(len(c10ConnValues))],
-				Handler: Pick(e, "", "", "", "", "", "setclose", "header-close", "header-keepalive", "timeout-resp-close", "timeout-resp"),
+				Handler: Pick(e, "", "", "", "", "", "setclose", "header-close", "header-keepalive", "timeout-resp-close", "timeout-resp", "readbody", "bigbody"),
+				Body:    Pick(e, "", "", "", "small", "big", "chunked"),
 			})
+			if r := &c.Reqs[len(c.Reqs)-1]; r.Handler == "bigbody" {
+				r.SlowMs = Pick(e, 0, 100, 1000)
+			}
 		}
 		p.Conns = append(p.Conns, c)
 	}
@@ -88,7 +100,7 @@ func scenC10(e *Env) func() {
 }
 
 func c10Server(e *Env, p *c10Plan) {
-	s := &fasthttp.Server{DisableKeepalive: p.DisableKA, MaxRequestsPerConn: p.MaxReqs, CloseOnShutdown: p.CloseOnShutdown, IdleTimeout: 10 * time.Minute}
+	s := &fasthttp.Server{DisableKeepalive: p.DisableKA, MaxRequestsPerConn: p.MaxReqs, CloseOnShutdown: p.CloseOnShutdown, IdleTimeout: 10 * time.Minute, StreamRequestBody: p.StreamReq}
 	k := NewServerKit(e, s)
 	k.Handle = func(ctx *fasthttp.RequestCtx, inv *Inv) {
 		switch string(ctx.Request.Header.Peek("X-Handler")) {
@@ -115,25 +127,40 @@ func c10Server(e *Env, p *c10Plan) {
 			ctx.TimeoutErrorWithResponse(r)
 			fasthttp.ReleaseResponse(r)
 			return
+		case "readbody":
+			ctx.PostBody()
+		case "bigbody":
+			ctx.SetBody(bytes.Repeat([]byte("big "), 20000))
+			return
 		}
 		ctx.SetBodyString("ok")
 	}
 	k.Start()
 	shutdownStart := time.Duration(-1)
+	shutdownEnd := time.Duration(-1)
 	var shutdownDone chan struct{}
 	if p.ShutdownAfterMs >= 0 {
 		shutdownDone = make(chan struct{})
 		Go("shutdown", func() {
 			time.Sleep(time.Duration(p.ShutdownAfterMs) * time.Millisecond)
 			shutdownStart = time.Since(simrtEpoch())
-			k.S.Shutdown()
+			if p.ShutdownCtxMs > 0 {
+				cx, cancel := context.WithTimeout(context.Background(), time.Duration(p.ShutdownCtxMs)*time.Millisecond)
+				if err := k.S.ShutdownWithContext(cx); err != nil {
+					e.Probe("shutdown-gave-up")
+				}
+				cancel()
+			} else {
+				k.S.Shutdown()
+			}
+			shutdownEnd = time.Since(simrtEpoch())
 			close(shutdownDone)
 		})
 	}
 	var fs []func()
 	for ci := range p.Conns {
 		ci := ci
-		fs = append(fs, func() { c10Conn1(e, k, p, ci, &shutdownStart) })
+		fs = append(fs, func() { c10Conn1(e, k, p, ci, &shutdownStart, &shutdownEnd) })
 	}
 	if !WaitAll(time.Hour, "conn", fs...) {
 		e.Violation("liveness/clients", "clients did not finish")
@@ -144,7 +171,7 @@ func c10Server(e *Env, p *c10Plan) {
 	}
 }
 
-func c10Conn1(e *Env, k *ServerKit, p *c10Plan, ci int, shutdownStart *time.Duration) {
+func c10Conn1(e *Env, k *ServerKit, p *c10Plan, ci int, shutdownStart, shutdownEnd *time.Duration) {
 	sc, err := k.NewSeqClient(fmt.Sprintf("10.0.10.%d", ci+1), simnet.Faults{})
 	if err != nil {
 		return
@@ -152,11 +179,31 @@ func c10Conn1(e *Env, k *ServerKit, p *c10Plan, ci int, shutdownStart *time.Dura
 	defer sc.C.Close()
 	for i, r := range p.Conns[ci].Reqs {
 		var b strings.Builder
-		fmt.Fprintf(&b, "GET /c%d-r%d %s\r\nHost: x\r\nX-Handler: %s\r\n", ci, i, r.Proto, r.Handler)
+		method, body := "GET", ""
+		switch r.Body {
+		case "small":
+			method, body = "POST", strings.Repeat("s", 300)
+		case "big", "chunked":
+			method, body = "POST", strings.Repeat("b", 20000)
+		}
+		if r.Body == "chunked" && r.Proto == "HTTP/1.0" {
+			method, body = "GET", "" // no chunked bodies on HTTP/1.0
+		}
+		fmt.Fprintf(&b, "%s /c%d-r%d %s\r\nHost: x\r\nX-Handler: %s\r\n", method, ci, i, r.Proto, r.Handler)
 		if r.ConnHdr != "" {
 			fmt.Fprintf(&b, "Connection: %s\r\n", r.ConnHdr)
 		}
-		b.WriteString("\r\n")
+		switch {
+		case body != "" && r.Body == "chunked":
+			fmt.Fprintf(&b, "Transfer-Encoding: chunked\r\n\r\n%x\r\n%s\r\n0\r\n\r\n", len(body), body)
+		case body != "":
+			fmt.Fprintf(&b, "Content-Length: %d\r\n\r\n%s", len(body), body)
+		default:
+			b.WriteString("\r\n")
+		}
+		if r.SlowMs > 0 {
+			sc.C.Peer().F.Window = 2000 // the server's response write waits for this reader
+		}
 		if i > 0 {
 			time.Sleep(100 * time.Millisecond)
 		}
@@ -170,7 +217,10 @@ func c10Conn1(e *Env, k *ServerKit, p *c10Plan, ci int, shutdownStart *time.Dura
 			}
 			return
 		}
-		resp, _, err := sc.ReadResp("GET", 60*time.Second)
+		if r.SlowMs > 0 {
+			time.Sleep(time.Duration(r.SlowMs) * time.Millisecond)
+		}
+		resp, _, err := sc.ReadResp(method, 60*time.Second)
 		if err != nil {
 			if *shutdownStart >= 0 {
 				return // closed by shutdown while idle: legal
@@ -204,7 +254,8 @@ func c10Conn1(e *Env, k *ServerKit, p *c10Plan, ci int, shutdownStart *time.Dura
 			reason = "handler-header"
 		case r.Handler == "timeout-resp-close":
 			reason = "handler-timeout-response-close"
-		case p.CloseOnShutdown && stopping:
+		case p.CloseOnShutdown && stopping && *shutdownEnd < 0:
+			// (a ShutdownWithContext that has given up is no shutdown any more)
 			reason = "close-on-shutdown"
 		}
 		if reason != "" && !resp.Close {
